@@ -92,10 +92,18 @@ func rprop_dense_with_gradient(evalGradient DenseGradientF, x0 DenseFloat64Vecto
       if gradient_is_nan(gradient_new) ||
         (constraints.Value != nil && !constraints.Value(x2)) {
         // if the updated is invalid reduce step size
+        stalled := true
         for i := 0; i < x1.Dim(); i++ {
           if gradient_new[i] != 0.0 {
+            if t := step[i]*eta[1]; t < step[i] && x1[i] + t != x1[i] {
+              stalled = false
+            }
             step[i] *= eta[1]
           }
+        }
+        if stalled {
+          // the steps cannot be reduced any further or are too small to change x
+          return x1, fmt.Errorf("no valid point found")
         }
       } else {
         // new position is valid, exit loop
